@@ -694,7 +694,8 @@ def stepWasm (st : WState) (line : String) : WState × String :=
         | _ => (st, "err")
       | none => (st, "bad-op")
     | "block" =>
-      match (a 1).toNat?, (a 2).toNat? with
+      -- `block same T`: `set_block` with the CURRENT height and another time
+      match (if a 1 == "same" then some app.block.height else (a 1).toNat?), (a 2).toNat? with
       | some h, some t => runQueue st { app with block := { app.block with height := h, time := t } }
       | _, _ => (st, "bad-op")
     | "next-block" =>
